@@ -72,7 +72,15 @@ class Run:
         self.attempts[tag] = n + 1
         fails, last = self.scripts.get(tag, (0, "O"))
         if n < fails or (n == fails and last == "F"):
-            peer.close()
+            # how a scripted attempt fails.  "close": the peer closes (http.client closes the connection
+            # itself before urlopen's cleanup runs); "silent": no reply (read timeout) and "garbage": a bad
+            # status line leave the socket OPEN until urlopen's `finally` closes it — only then is the order
+            # of "close the broken connection" and "hand the slot back" observable by another thread.
+            kind = self.case.get("failkind", "close")
+            if kind == "close":
+                peer.close()
+            elif kind == "garbage":
+                peer.reply(b"\x16\x03\x01 not http\r\n\r\n")
             return
         body = f"{tag}#{n}".encode()
         peer.reply(http_response(200, [("X-Tag", tag)], body))
@@ -358,7 +366,9 @@ class C02(Prop):
                     bound = 1
                     if deep and nthreads <= 3 and shape in ("2x1", "extra"):
                         bound = 2
+                    nfail = sum(1 for prog in progs for op in prog if op[0] in "rs" and (parse_op(op)[1] > 0 or op[-1] == "F"))
                     yield {"maxsize": maxsize, "block": block, "timeout": timeout, "progs": progs, "shape": shape,
+                           "failkind": rng.choice(["close", "silent", "garbage"]) if nfail else "close",
                            "explore": {"kind": "mix", "bound": bound, "limit": 6000 if deep else 700,
                                        "rand": (40 if deep else 6), "seed": rng.randrange(1 << 30)}}
 
